@@ -49,7 +49,7 @@ FILES = {
     "src/analyzing/private_recursion.rs": ["C11"],
     "src/analyzing/regularity.rs": ["C11", "C08"],
     "src/syntax_tree/fol/sigma_0.rs": ["C17", "C07", "C09", "C12", "C13", "C02", "C08", "C06", "C19"],
-    "src/syntax_tree/asp/mini_gringo.rs": ["C01", "C11", "C14"],
+    "src/syntax_tree/asp/mini_gringo.rs": ["C01", "C11", "C14", "C08"],
     "src/convenience/apply/mod.rs": ["C18", "C07"],
     "src/convenience/compose/mod.rs": ["C07", "C18"],
     "src/convenience/unbox/fol/sigma_0.rs": ["C07", "C05"],
@@ -319,6 +319,11 @@ def main():
         for r in rows:
             latest[r["id"]] = r
         rows = list(latest.values())
+        by = {}
+        for r in rows:
+            by.setdefault(r["file"], {}).setdefault(r["status"], 0)
+            by[r["file"]][r["status"]] += 1
+        rows = [r for r in rows if r["status"] != "notamutant"]
         by = {}
         for r in rows:
             by.setdefault(r["file"], {}).setdefault(r["status"], 0)
